@@ -3,8 +3,10 @@ from .. import scenarios
 
 hubprops.PLAN["C07"] = [
     {"fam": "Identity", "num_q": 40, "num_t": 600, "depth": 100},
-    {"fam": "Routing", "num_q": 40, "num_t": 400, "depth": 80},
+    {"fam": "Routing", "num_q": 50, "num_t": 600, "depth": 80},
+    {"fam": "Failures", "num_q": 60, "num_t": 600, "depth": 80},
     {"fam": "leave-and-reuse", "scen": scenarios.leave_and_reuse, "num_q": 0, "num_t": 0, "prof_q": 2, "prof_t": 6},
+    {"fam": "death-during-manager-msg", "scen": scenarios.death_during_manager_msg, "num_q": 0, "num_t": 0, "prof_q": 3, "prof_t": 8},
 ]
 
 
